@@ -6,6 +6,8 @@
 import IbicusModel.Lemmas.Windows
 import IbicusModel.Lemmas.GenWindows
 import IbicusModel.Lemmas.Skeleton
+import Mathlib.Data.List.Perm.Basic
+import Mathlib.Data.List.Count
 
 namespace Props.C07
 open Model.Windows Lemmas.Windows Model.Skeleton Lemmas.Skeleton
@@ -228,6 +230,60 @@ theorem applyLocationMonths_all_some {α} (f : WinFn α) (mO mH mF : List Int)
 example : applyLocationRW (α := Int) (fun _ _ x _ _ _ => .ok (x.map (· + 100))) 5 3 [2, 3, 4] [2, 3, 4]
     [2, 3, 4, 2, 3, 4] [1, 2, 3] [1, 2, 3] [10, 20, 30, 40, 50, 60]
     = .ok [some 110, some 120, some 130, some 140, some 150, some 160] := by decide
+
+/-! ### Exactly once -/
+
+theorem sum_indicator {β} (l : List β) (p : β → Bool) :
+    (l.map (fun c => if p c then 1 else 0)).sum = (l.filter p).length := by
+  induction l with
+  | nil => rfl
+  | cons a t ih =>
+    simp only [List.map_cons, List.sum_cons, List.filter_cons]
+    by_cases h : p a <;> simp [h, ih]; omega
+
+theorem idxAdjust_nodup (S : Int) (doy : List Int) (c : Int) : (idxAdjust S doy c).Nodup := by
+  unfold idxAdjust indicesIn Py.whereTrue
+  exact List.Nodup.filter _ List.nodup_range
+
+theorem forall2_map_eq {β γ δ} {R : β → γ → Prop} {l : List β} {rs : List γ} (k : γ → δ) (g : β → δ)
+    (h : List.Forall₂ R l rs) (hk : ∀ b r, R b r → k r = g b) : rs.map k = l.map g := by
+  induction h with
+  | nil => rfl
+  | cons hab _ ih => simp [hk _ _ hab, ih]
+
+/-- **Every time step is written exactly once**: over the whole run of the running-window loop, the indices
+    written (`debiased[indices] = …`, all windows together, with multiplicity) are a permutation of `0..n-1`. -/
+theorem applyLocationRW_written_once {α} (f : WinFn α) (L S h : Int) (dO dH dF : List Int)
+    (obs hist fut : List α) (wss : List (List (Nat × α)))
+    (hS : S = 2 * h + 1) (hh : 0 ≤ h) (hr : ∀ d ∈ dF, 0 ≤ d ∧ d ≤ 366)
+    (hrun : mapE (windowWrites f L S dO dH dF obs hist fut) (useCenters S dF) = .ok wss) :
+    (wss.flatten.map Prod.fst).Perm (List.range dF.length) := by
+  have hF := mapE_ok _ _ _ hrun
+  have hkeys : wss.map (List.map Prod.fst) = (useCenters S dF).map (idxAdjust S dF) :=
+    forall2_map_eq _ _ hF (fun c ws hR => windowWrites_keys _ _ _ _ _ _ _ _ _ _ _ hR)
+  rw [List.map_flatten, hkeys, List.perm_iff_count]
+  intro i
+  rw [List.count_flatten, List.map_map]
+  have hcount : ∀ c, List.count i (idxAdjust S dF c) = if (idxAdjust S dF c).contains i then 1 else 0 := by
+    intro c
+    by_cases hm : i ∈ idxAdjust S dF c
+    · rw [List.count_eq_one_of_mem (idxAdjust_nodup S dF c) hm, if_pos (List.contains_iff_mem.mpr hm)]
+    · rw [List.count_eq_zero_of_not_mem hm, if_neg (by rwa [List.contains_iff_mem])]
+  have : (List.count i ∘ idxAdjust S dF) = fun c => if (idxAdjust S dF c).contains i then 1 else 0 := by
+    funext c; exact hcount c
+  rw [this, sum_indicator]
+  by_cases hi : i < dF.length
+  · obtain ⟨c, hc⟩ := use_cover_unique S h dF i hS hh hi hr
+    rw [hc, List.count_eq_one_of_mem List.nodup_range (List.mem_range.mpr hi)]
+    rfl
+  · have : (useCenters S dF).filter (fun c => (idxAdjust S dF c).contains i) = [] := by
+      rw [List.filter_eq_nil_iff]
+      intro c _ hc
+      have := (mem_indicesIn _ _ _).mp (List.contains_iff_mem.mp hc)
+      exact hi this.1
+    rw [this, List.count_eq_zero_of_not_mem (by simpa using hi)]
+    rfl
+
 
 /-! ### Non-vacuity and the defects that were repaired (F2, F13) -/
 
